@@ -789,6 +789,7 @@ def decide(prop, tier, seed, cfg, proof, results, build_fail, known, extra_res, 
         "trusted_base": TRUSTED_COMMON + cfg.get("trusted", []),
         "theorems": sorted(proof["axioms"].keys()),
         "axioms_used": sorted({a for v in proof["axioms"].values() for a in v}),
+        "axioms_per_theorem": {k: v for k, v in sorted(proof["axioms"].items())},
         "proof_failures": proof["failures"],
         "evaluations": evaluations,
         "distinct_nontrivial": distinct_nontrivial,
